@@ -246,7 +246,7 @@ def main(argv=None):
             for k in range(nsh):
                 specs.append({"prop": pid, "arm": arm.name, "mode": "collect", "n": per,
                               "seed": seed * 1009 + 101 * ai + k, "ctx": ctx.to_json(),
-                              "deadline_s": wall_budget})
+                              "deadline_s": wall_budget, "timeout_s": 1500 if tier == "quick" else 6 * 3600})
                 meta.append((arm, k))
         results = pool.run_all(specs)
 
